@@ -1,7 +1,7 @@
 """C11 - Bimap keeps its two directions mutually inverse (DESIGN.md section 7-C11)."""
 from ..core import *
 
-CLAUSES = ["I_NoPanic", "I_Inverse", "I_Model", "I_Contains", "I_Len", "I_Range", "I_RangeStop"]
+CLAUSES = ["I_NoPanic", "I_Inverse", "I_Model", "I_Contains", "I_Len", "I_Range", "I_RangeStop", "I_Probe"]
 OPS = ["Add", "RemoveForward", "RemoveReverse", "Clear", "Clone"]
 
 
@@ -34,6 +34,22 @@ def check(run):
             op = run.rng.choice(["RemoveForward", "RemoveReverse", "RemoveForward", "RemoveReverse", "Add"])
             p.append(dict(op=op, n=run.rng.choice("ab"), k=run.rng.randint(1, 24), v=run.rng.randint(11, 34)))
         plans.append(p)
+    # look-up, change, look-up with nothing else observed in between (Len only)
+    import itertools
+    trip = []
+    K, V = (1, 2), (11, 12)
+    looks = [dict(op=o, k=k, v=0) for o in ("GetForward", "ContainsForward") for k in K] + [dict(op=o, k=0, v=v) for o in ("GetReverse", "ContainsReverse") for v in V]
+    muts = [dict(op="Add", k=k, v=v) for k in K for v in V] + [dict(op="RemoveForward", k=k, v=0) for k in K] + \
+           [dict(op="RemoveReverse", k=0, v=v) for v in V] + [dict(op="Clear", k=0, v=0)]
+    contents = [[], [(1, 11)], [(1, 12)], [(2, 11)], [(1, 11), (2, 12)], [(1, 12), (2, 11)]]
+    for cont in contents:
+        for a in looks:
+            for m in muts:
+                for b in looks:
+                    p = [dict(op="Reset", n="a", k=0, v=0, nk=2, nv=2)] + [dict(op="Add", n="a", k=k, v=v, q=True) for k, v in cont]
+                    p += [dict(a, n="a", q=True), dict(m, n="a", q=True), dict(b, n="a", q=True), dict(b, n="a", q=False)]
+                    trip.append(p)
+    plans += trip if not run.quick() else run.rng.sample(trip, 800)
     # large bimaps (hundreds of pairs: whatever a map or a Bimap does differently when big), read back in full only at chosen points:
     # fill, clone, clear / drain through every size, refill; both copies observed
     for N in ((129, 140, 300) if run.quick() else (64, 129, 140, 300, 600, 1100)):
